@@ -8,9 +8,9 @@
 (***************************************************************************)
 EXTENDS ConfFile
 
-V0 == << <<"u1", "enabled">>, <<>>, 0 >>          \* the config every populated start state holds: A logged in
-VP == << <<"u2", "disabled">>, <<"tok", "enabled">>, 1 >>   \* the value a "put" writes
-VQ == << <<>>, <<"u1", "insecure">>, 0 >>         \* the value the second racing "put" writes
+V0 == << <<"u1", "enabled">>, <<>>, "0" >>        \* the config every populated start state holds: A logged in
+VP == << <<"u2", "disabled">>, <<"tok", "enabled">>, "1" >>   \* the value a "put" writes
+VQ == << <<>>, <<"u1", "insecure">>, "0" >>         \* the value the second racing "put" writes
 NoFault == [at |-> "none", k |-> 0]
 
 CfgFile(mode, uid, gid) == [kind |-> "file", c |-> V0, n |-> 1, sz |-> 1, mode |-> mode, uid |-> uid, gid |-> gid]
@@ -23,34 +23,31 @@ User == [uid |-> 1000, gid |-> 1000]
 StartsNoFile == {St(1, 0, NoCfg, 0), St(2, 0, NoCfg, 0), St(0, 448, NoCfg, 0), St(0, 493, NoCfg, 1)}
 StartsFile(id) ==
   {St(0, 448, CfgFile(m, id.uid, id.gid), s) : m \in {384, 420, 416}, s \in {0, 1}}
-  \cup {St(0, 493, CfgFile(432, 2000, 2000), 0), St(0, 493, CfgFile(384, 1000, 1000), 0)}
-StartsOdd(id) == {St(0, 448, CfgDir(id.uid, id.gid), 0)}
+  \cup {St(0, 493, CfgFile(420, 2000, 2000), 0), St(0, 493, CfgFile(384, 1000, 1000), 0)}
+\* a directory in the way, and a truncated (unparsable) file left by some other tool
+StartsOdd(id) == {St(0, 448, CfgDir(id.uid, id.gid), 0), St(0, 448, [CfgFile(384, id.uid, id.gid) EXCEPT !.n = 0], 0)}
 \* existing files whose owner or group is root while the other is not (finding X02-1), for a root process
 StartsRootGroup == {St(0, 493, CfgFile(432, 0, 2000), 0), St(0, 493, CfgFile(416, 1000, 0), 0)}
 
 C(kind, h, u, v) == [kind |-> kind, h |-> h, u |-> u, v |-> v, val |-> EmptyVal, n |-> 1, fault |-> NoFault]
 Put(val, n) == [kind |-> "put", h |-> "", u |-> "", v |-> "", val |-> val, n |-> n, fault |-> NoFault]
 Commands == {C("login", "A", "u2", ""), C("login", "B", "u1", ""), C("login", "B", "tok", ""), C("logout", "A", "", ""),
-             C("logout", "B", "", ""), C("set", "A", "", "disabled"), C("set", "B", "", "insecure"), C("cset", "", "", 1)}
+             C("logout", "B", "", ""), C("set", "A", "", "disabled"), C("set", "B", "", "insecure"), C("cset", "", "", "1")}
 Puts == {Put(VP, n) : n \in 0..3}
 
 FaultsOf(c) == {NoFault} \cup {[at |-> a, k |-> 0] : a \in {"mkdir", "creat", "close", "stat", "chmod", "chown", "rename"}}
-               \cup {[at |-> "read", k |-> k] : k \in 0..c.n} \cup {[at |-> "write", k |-> k] : k \in 0..(c.n - 1)}
+               \cup (IF c.kind = "put" THEN {[at |-> "read", k |-> k] : k \in 0..c.n} ELSE {}) \cup {[at |-> "write", k |-> k] : k \in 0..(c.n - 1)}
 WithFaults(cs) == UNION {{[c EXCEPT !.fault = f] : f \in FaultsOf(c)} : c \in cs}
 
 Scn(mode, st, id, um, ws) == [mode |-> mode, start |-> st, id |-> id, umask |-> um, ws |-> ws]
 Starts(id) == StartsNoFile \cup StartsFile(id) \cup StartsOdd(id)
 
 \* one command (every kind, every fault point) on every start state, as root and as a user
-OneCmdAll == UNION {{Scn("seq", st, id, um, <<c>>) : st \in Starts(id), c \in WithFaults(Commands \cup Puts), um \in {18, 63, 0}}
-                    : id \in {Root, User}}
 OneCmdQuick == UNION {{Scn("seq", st, id, 18, <<c>>) : st \in Starts(id), c \in WithFaults(Commands \cup {Put(VP, 2)})}
                       : id \in {Root, User}}
 \* sequences of two / three commands, the first possibly faulted
 SeqStarts == {St(1, 0, NoCfg, 0), St(0, 448, CfgFile(384, 1000, 1000), 0), St(0, 448, CfgFile(420, 1000, 1000), 1)}
-Seq2 == {Scn("seq", st, User, 18, <<a, b>>) : st \in SeqStarts, a \in WithFaults(Commands), b \in Commands}
 Seq2Quick == {Scn("seq", st, User, 18, <<a, b>>) : st \in SeqStarts, a \in Commands, b \in Commands}
-Seq3 == {Scn("seq", st, User, 18, <<a, b, c>>) : st \in {St(1, 0, NoCfg, 0)}, a \in Commands, b \in Commands, c \in Commands}
 \* two racing saves: two puts of different content, and two commands that load first
 RaceStarts == {St(1, 0, NoCfg, 0), St(0, 448, CfgFile(420, 1000, 1000), 0)}
 RacePut(n) == {Scn("race", st, User, 18, <<Put(VP, n), Put(VQ, n)>>) : st \in RaceStarts}
@@ -62,8 +59,14 @@ RaceFault == {Scn("race", st, User, 18, <<a, Put(VQ, 1)>>) : st \in RaceStarts, 
 RootGroup == {Scn("seq", st, Root, 18, <<c>>) : st \in StartsRootGroup, c \in {C("login", "B", "u1", ""), Put(VP, 1)}}
 
 QuickSet == OneCmdQuick \cup Seq2Quick \cup RacePut(1) \cup RaceCmd
-SeqSet == OneCmdAll \cup Seq2 \cup Seq3
+\* the quick tier splits that product: every fault point without a crash, every unfaulted scenario with crashes
+QuickFaultSet == OneCmdQuick
+QuickCrashSet == {s \in OneCmdQuick : s.ws[1].fault.at = "none"} \cup Seq2Quick \cup RacePut(1) \cup RaceCmd
 RaceSet == RacePut(2) \cup RaceCmd \cup RaceFault
+\* what the generator prints for the real-code side
+GenSeq == OneCmdQuick \cup Seq2Quick \cup RootGroup
+GenRace1 == RacePut(1) \cup RaceFault
+GenRace2 == RacePut(2)
 MutSet == {Scn("seq", st, User, 18, <<c>>) : st \in {St(1, 0, NoCfg, 0), St(0, 448, CfgFile(416, 1000, 1000), 0)},
                                             c \in WithFaults({C("login", "B", "u1", ""), Put(VP, 2)})}
 =============================================================================
